@@ -15,7 +15,7 @@ Inductive lfun :=
 Inductive lfun2 :=
 | LF2 (intrinsic : bool) (f : bfun)      (* llvm.pow, external atan2 *)
 | LMaxNum | LMinNum.                     (* llvm.maxnum / llvm.minnum *)
-Inductive pred := OEQ | ONE | OLE | OLT. (* fcmp, ordered *)
+Inductive pred := OEQ | ONE | OLE | OLT | UNE. (* fcmp: ordered ==, !=, <=, <; unordered-or-not-equal (C's !=) *)
 Inductive lbit := BitAnd | BitOr | BitXor.
 
 Inductive lterm :=
@@ -68,5 +68,5 @@ Fixpoint lookup_lrule (tbl : list (N * lrule)) (c : N) : option lrule :=
   | (k, r) :: rest => if N.eqb k c then Some r else lookup_lrule rest c
   end.
 
-Definition pred_code (p : pred) : N := match p with OEQ => 0 | ONE => 1 | OLE => 2 | OLT => 3 end%N.
+Definition pred_code (p : pred) : N := match p with OEQ => 0 | ONE => 1 | OLE => 2 | OLT => 3 | UNE => 4 end%N.
 Definition lbit_code (o : lbit) : N := match o with BitAnd => 0 | BitOr => 1 | BitXor => 2 end%N.
